@@ -456,7 +456,7 @@ def check_case(pyhf, case, backend, precision, props, rng, model_cache, extra_ba
                     F.append(Finding("C02", "logpdf differs from main + constraint template", det, tags_base + ["full"]))
                 if abs((main + cons) - full) > ltol * scale:
                     F.append(Finding("C02", "mainlogpdf + constraint_logpdf != logpdf", det, tags_base + ["sum"]))
-                if full > -700 and not math.isclose(dens, math.exp(full), rel_tol=1e-9 if precision == "64b" else 1e-3, abs_tol=1e-300):
+                if full > (-700 if precision == "64b" else -80) and not math.isclose(dens, math.exp(full), rel_tol=1e-9 if precision == "64b" else 1e-3, abs_tol=1e-300):
                     F.append(Finding("C02", "pdf is not exp(logpdf)", det, tags_base + ["exp"]))
                 # expected aux data = constrained parameters times factors, at their positions
                 try:
